@@ -164,13 +164,13 @@ func GenSource(e *mc.Explorer, c *SrcCfg, depth int) gen.Source {
 }
 
 type DstCfg struct {
-	Asset    string
-	Accts    []WS
-	VarAccts []WS
-	Caps     []WS
-	Vecs     []PortVec
-	NClauses []WS // number of `max` clauses in an ordered destination
-	WKept    int  // cost of `kept` instead of `to <dest>` (negative disables)
+	Asset                  string
+	Accts                  []WS
+	VarAccts               []WS
+	Caps                   []WS
+	Vecs                   []PortVec
+	NClauses               []WS // number of `max` clauses in an ordered destination
+	WKept                  int  // cost of `kept` instead of `to <dest>` (negative disables)
 	WVar, WInorder, WAllot int
 }
 
